@@ -870,7 +870,7 @@ func C19(p *an.Prog, r *an.Report) {
 	c19SharedCore(p, r, "key_certificate.NewKeyCertificate", "key_certificate.KeyCertificateFromCertificate", 1)
 	c19TwinSerializers(p, r)
 	c01Block(p, r, "C19.R1")
-	c19NoCallHistory(p, r)
+	c19NoCallHistory(p, r, "C19.P1")
 }
 
 // c19NoCallHistory (P1): what an entry point returns cannot depend on earlier calls. The library
@@ -879,7 +879,7 @@ func C19(p *an.Prog, r *an.Report) {
 // something reached from one, and no package-level variable has a sync/atomic container type. (A
 // memo cache makes two entry points that agree on every fresh process disagree after a colliding
 // key was cached; plain stores to package-level variables after init are C18.W3.)
-func c19NoCallHistory(p *an.Prog, r *an.Report) {
+func c19NoCallHistory(p *an.Prog, r *an.Report, rule string) {
 	mutators := map[string]bool{"Store": true, "LoadOrStore": true, "LoadAndDelete": true, "Swap": true, "CompareAndSwap": true, "CompareAndDelete": true, "Delete": true, "Put": true, "Add": true, "Clear": true}
 	rootGlobal := func(v ssa.Value) *ssa.Global {
 		for i := 0; i < 8 && v != nil; i++ {
@@ -946,10 +946,10 @@ func c19NoCallHistory(p *an.Prog, r *an.Report) {
 	}
 	r.Analysed["method_calls_on_package_level_variables"] = calls
 	if calls < 10 {
-		r.Fail("C19.P1 canary: only %d method calls on package-level variables found (the loggers alone account for hundreds): the detector no longer sees them", calls)
+		r.Fail(rule+" canary: only %d method calls on package-level variables found (the loggers alone account for hundreds): the detector no longer sees them", calls)
 	}
 	sort.Strings(bad)
-	r.Check(len(bad) == 0, "C19.P1", "no-call-history", "-", "no entry point's result can depend on earlier calls: the library fills no package-level container at run time", bad...)
+	r.Check(len(bad) == 0, rule, "no-call-history", "-", "no entry point's result can depend on earlier calls: the library fills no package-level container at run time", bad...)
 }
 
 // c19BuilderState (K2): the certificate builder agrees with the direct constructors only if the
